@@ -334,9 +334,9 @@ Proof.
   unfold mul_c, mkFLScal, mkFRScal. intros S. destruct (ofunc a).
   - destruct (c =? nzero); [intros E; inversion E; exact I|].
     destruct (olin vt a); [apply mkLScal_sat | apply mkRScal_sat]; exact S.
-  - assert (G : (if olin vt a && (rl || negb (v_real_shortcut vt)) then rmul_c a c else mkRScal false a c) = Ok o
+  - assert (G : (if olin vt a && rl then rmul_c a c else mkRScal false a c) = Ok o
                 -> osat P o)
-      by (destruct (olin vt a && (rl || negb (v_real_shortcut vt))); [apply rmul_c_sat | apply mkRScal_sat]; exact S).
+      by (destruct (olin vt a && rl); [apply rmul_c_sat | apply mkRScal_sat]; exact S).
     destruct a; try exact G. apply mkRScal_sat. exact S.
 Qed.
 Lemma mkSum_sat fn (a b : oexpr T) o : osat P a -> osat P b -> mkSum fn a b = Ok o -> osat P o.
